@@ -202,10 +202,23 @@ var domainLists = [][]string{
 }
 
 // degenerate configurations (ProxyConfig.Validate accepts them); used sparingly
-var oddDomainLists = [][]string{{""}, {"."}, {"..example.com"}, {"example.com", ""}}
+var oddDomainLists = [][]string{{""}, {"."}, {"..example.com"}, {"example.com", ""},
+	// blank-but-present entries, as AUTHORIZE_PROXY_DOMAINS="example.com, example.io, " yields them (seed C07-17)
+	{"example.com", " example.io", " "}, {"example.com", "\t"}, {"example.com", " corp.test "}}
+
+// pickDom draws the domain a generated host is built from; blank-but-present entries are configuration
+// noise, not a domain to build hosts from
+func pickDom(r *c.Rng, doms []string) string {
+	for i := 0; i < 8; i++ {
+		if d := r.Pick(doms); strings.TrimSpace(d) == d {
+			return d
+		}
+	}
+	return "example.com"
+}
 
 func pickDomains(r *c.Rng) []string {
-	if r.Chance(0.06) {
+	if r.Chance(0.09) {
 		return oddDomainLists[r.Intn(len(oddDomainLists))]
 	}
 	return domainLists[r.Intn(len(domainLists))]
@@ -264,7 +277,7 @@ func dotLookalike(r *c.Rng, d string) string {
 func genHost(r *c.Rng, doms []string) string {
 	d := "example.com"
 	if len(doms) > 0 {
-		d = strings.TrimLeft(r.Pick(doms), ".")
+		d = strings.TrimLeft(pickDom(r, doms), ".")
 	}
 	switch r.Intn(40) {
 	case 34, 35, 36, 37, 38, 39:
@@ -286,6 +299,9 @@ func genHost(r *c.Rng, doms []string) string {
 	case 7:
 		return mixCase(r, "app."+d)
 	case 8:
+		if r.Chance(0.5) {
+			return "evil.org." // fully qualified foreign host: in-domain only for a root "."
+		}
 		return "evil.org"
 	case 9:
 		return strings.Replace("app."+d, ".", "%2e", 1)
@@ -378,7 +394,7 @@ func mutate(r *c.Rng, s string) string {
 func genURI(r *c.Rng, doms []string) string {
 	d := "example.com"
 	if len(doms) > 0 {
-		d = strings.TrimLeft(r.Pick(doms), ".")
+		d = strings.TrimLeft(pickDom(r, doms), ".")
 	}
 	if r.Chance(0.08) {
 		specials := []string{"", "*", d, "/path", "//" + d, "///" + d, "http:" + d, "http:/" + d, "\\\\" + d, " https://" + d,
@@ -440,7 +456,7 @@ func genURI(r *c.Rng, doms []string) string {
 func goodURI(r *c.Rng, doms []string) string {
 	d := "example.com"
 	if len(doms) > 0 {
-		d = strings.TrimLeft(r.Pick(doms), ".")
+		d = strings.TrimLeft(pickDom(r, doms), ".")
 	}
 	h := r.Pick([]string{"app." + d, d, "a.b." + d, "app." + d + ":8443"})
 	return r.Pick([]string{"https://", "http://"}) + h + r.Pick([]string{"/oauth2/callback", "/", "/oauth2/callback", "/x/1", "/cb?x=1", ""})
@@ -1445,7 +1461,8 @@ func corpus() []c.Case {
 			}
 		}
 	}
-	for _, ds := range [][]string{{""}, {"."}, {"..example.com"}, {".example.com"}} {
+	for _, ds := range [][]string{{""}, {"."}, {"..example.com"}, {".example.com"},
+		{"example.com", " example.io", " "}, {"example.com", "\t"}, {" "}, {"example.com", " corp.test "}} {
 		for _, u := range []string{"https://evil.org./", "https://:80/", "https://example.com/", "https://.example.com/", "https://x..example.com/", "https://x.example.com/"} {
 			if rc, ok := redirCase(ds, u); ok {
 				cs = append(cs, rc)
